@@ -23,6 +23,8 @@ type Harness struct {
 	MaxSchedPoints int
 	MaxDecisions   int
 	ConcIndexMax   int
+	PoolReuse      bool // "pool_reuse": sync.Pool.Get may return any object Put earlier on the path (forked), or New()
+	SchedGlobals   bool // "sched_globals": unsynchronised accesses to package-level variables are scheduling points
 	MaxPreemptions int // context-switch bound for the symbolic scheduler (-1 = unbounded)
 	mapOrderFixed  bool
 	KnownActive    map[string]bool // known-finding keys listed as `finding:`
